@@ -1,0 +1,185 @@
+//! Verification hooks. This module is compiled only with `--cfg mini_moka_verif`;
+//! with the cfg off (the default) nothing here, nor any of the `verif_*` methods
+//! spread over the crate, exists.
+
+use crate::common::{
+    deque::{DeqNode, Deque},
+    frequency_sketch::FrequencySketch,
+    time::{clock::Mock, Clock, Instant},
+    CacheRegion,
+};
+
+use std::{ptr::NonNull, sync::Arc, time::Duration};
+
+/// A mock clock that can be installed into both caches (`verif_set_clock`).
+pub struct MockClock {
+    mock: Arc<Mock>,
+    base: std::time::Instant,
+}
+
+impl Default for MockClock {
+    fn default() -> Self {
+        let mock = Arc::new(Mock::default());
+        let base = mock.verif_now();
+        Self { mock, base }
+    }
+}
+
+impl MockClock {
+    /// The reading of the clock when it was created.
+    pub fn base(&self) -> std::time::Instant {
+        self.base
+    }
+
+    pub fn advance(&self, amount: Duration) {
+        self.mock.verif_increment(amount);
+    }
+
+    pub fn now_ns(&self) -> u128 {
+        self.mock.verif_now().duration_since(self.base).as_nanos()
+    }
+
+    pub(crate) fn clock(&self) -> Clock {
+        Clock::verif_from_mock(&self.mock)
+    }
+}
+
+pub(crate) fn fmt_ts(base: std::time::Instant, ts: Option<Instant>) -> String {
+    match ts {
+        None => "-".to_string(),
+        Some(t) => match t.verif_std().checked_duration_since(base) {
+            Some(d) => d.as_nanos().to_string(),
+            None => "before-base".to_string(),
+        },
+    }
+}
+
+pub(crate) fn fmt_sketch(sk: &FrequencySketch) -> String {
+    let (sample_size, table_mask, table, size) = sk.verif_state();
+    let words: Vec<String> = table
+        .iter()
+        .enumerate()
+        .filter(|(_, w)| **w != 0)
+        .map(|(i, w)| format!("{}:{}", i, w))
+        .collect();
+    format!(
+        "sk={}:{}:{}:{}:[{}]",
+        size,
+        sample_size,
+        table_mask,
+        table.len(),
+        words.join(",")
+    )
+}
+
+/// Facade over the popularity estimator.
+#[derive(Default)]
+pub struct Sketch(FrequencySketch);
+
+impl Sketch {
+    pub fn ensure_capacity(&mut self, cap: u32) {
+        self.0.ensure_capacity(cap)
+    }
+
+    pub fn increment(&mut self, hash: u64) {
+        self.0.increment(hash)
+    }
+
+    pub fn frequency(&self, hash: u64) -> u8 {
+        self.0.frequency(hash)
+    }
+
+    /// `sk=<size>:<sample_size>:<table_mask>:<table_len>:[<index>:<word>,...]`
+    pub fn state(&self) -> String {
+        fmt_sketch(&self.0)
+    }
+
+    /// `common::sketch_capacity`
+    pub fn sketch_capacity(max_capacity: u64) -> u32 {
+        crate::common::sketch_capacity(max_capacity)
+    }
+}
+
+/// Facade over the intrusive list: `Deque<u64>` driven through integer handles.
+/// A handle is the index of the node in allocation order. The facade keeps the raw
+/// pointers; whether a handle may still be used is the caller's (the harness's)
+/// responsibility, exactly like the `unsafe` contract of `Deque`.
+pub struct Deq {
+    deque: Deque<u64>,
+    handles: Vec<NonNull<DeqNode<u64>>>,
+}
+
+impl Default for Deq {
+    fn default() -> Self {
+        Self {
+            deque: Deque::new(CacheRegion::MainProbation),
+            handles: Vec::new(),
+        }
+    }
+}
+
+impl Deq {
+    fn handle_of(&self, node: NonNull<DeqNode<u64>>) -> usize {
+        // latest allocation with this address (addresses can be reused after a drop)
+        self.handles
+            .iter()
+            .rposition(|h| *h == node)
+            .expect("unknown node")
+    }
+
+    pub fn push_back(&mut self, element: u64) -> usize {
+        let node = self.deque.push_back(Box::new(DeqNode::new(element)));
+        self.handles.push(node);
+        self.handles.len() - 1
+    }
+
+    pub fn contains(&self, handle: usize) -> bool {
+        self.deque.contains(unsafe { self.handles[handle].as_ref() })
+    }
+
+    pub fn peek_front(&self) -> Option<(usize, u64)> {
+        self.deque
+            .peek_front_ptr()
+            .map(|n| (self.handle_of(n), unsafe { n.as_ref() }.element))
+    }
+
+    pub fn pop_front(&mut self) -> Option<u64> {
+        self.deque.pop_front().map(|b| b.element)
+    }
+
+    pub fn move_to_back(&mut self, handle: usize) {
+        unsafe { self.deque.move_to_back(self.handles[handle]) }
+    }
+
+    pub fn move_front_to_back(&mut self) {
+        self.deque.move_front_to_back()
+    }
+
+    pub fn unlink_and_drop(&mut self, handle: usize) {
+        unsafe { self.deque.unlink_and_drop(self.handles[handle]) }
+    }
+
+    pub fn next_of(&self, handle: usize) -> Option<usize> {
+        DeqNode::next_node_ptr(self.handles[handle]).map(|n| self.handle_of(n))
+    }
+
+    /// One step of the cursor-based iterator (`impl Iterator for &mut Deque<T>`).
+    pub fn iter_next(&mut self) -> Option<u64> {
+        (&mut self.deque).next().copied()
+    }
+
+    /// `len=<len> [<handle>:<element>,...] walk=<ok|problem>` front to back.
+    pub fn state(&self) -> String {
+        let (nodes, problem) = self.deque.verif_walk();
+        let strs: Vec<String> = nodes
+            .iter()
+            .map(|n| format!("{}:{}", self.handle_of(*n), unsafe { n.as_ref() }.element))
+            .collect();
+        format!(
+            "len={} [{}] walk={}",
+            self.deque.verif_len(),
+            strs.join(","),
+            problem.unwrap_or_else(|| "ok".to_string()).replace(' ', "_")
+        )
+    }
+}
